@@ -55,34 +55,46 @@ ASSUMPTIONS = [
 
 
 class HangDetected(BaseException):
-    """raised by the wall-clock watchdog inside a call into the library that did not return (an unbounded loop on a defective tree);
+    """raised by the watchdog inside a call into the library that did not return (an unbounded loop on a defective tree);
     a BaseException, so that no `except Exception` of the library or of the harness swallows it"""
 
 
-HANG_S = 1.5      # one datagram_received / decoder / encoder call (they take milliseconds; a 12-datagram flood with 480 records ~ 50 ms)
-CASE_S = 45.0     # one whole simulated case (they take 20-300 ms)
+# Budgets are CPU time of this process (ITIMER_VIRTUAL, as wp-C02FIX's step watchdog in harness/c02.py): a loaded machine -- Lean building on
+# every core next to the check -- stretches wall clock, not CPU time, so it cannot make a correct tree look hung (review 3).  A call that
+# blocks without burning CPU is caught by a wall-clock backstop twenty times as long.
+HANG_S = 1.5      # CPU seconds for one datagram_received / decoder / encoder call (they take milliseconds; a 12-datagram flood with 480 records ~ 50 ms)
+CASE_S = 45.0     # CPU seconds for one whole simulated case (they take 20-300 ms)
+WALL_FACTOR = 20.0
 _guards = []
 
 
 def _arm():
     import signal
-    d = min(g.deadline for g in _guards) - time.time()
-    signal.setitimer(signal.ITIMER_REAL, max(d, 0.001))
+    cpu = min(g.cpu_deadline for g in _guards) - time.process_time()
+    wall = min(g.wall_deadline for g in _guards) - time.time()
+    signal.setitimer(signal.ITIMER_VIRTUAL, max(cpu, 0.001))
+    signal.setitimer(signal.ITIMER_REAL, max(wall, 0.001))
 
 
 def _alarm(signum, frame):
-    now = time.time()
+    nowc, noww = time.process_time(), time.time()
+    hit = False
     for g in _guards:
-        if g.deadline <= now + 0.0005:
-            g.deadline = now + g.seconds      # re-armed: the code that is interrupted may be called again (e.g. by the event loop)
+        if g.cpu_deadline <= nowc + 0.01 or g.wall_deadline <= noww + 0.0005:
+            # re-armed: the code that is interrupted may be called again (e.g. by the event loop)
+            g.cpu_deadline = nowc + g.seconds
+            g.wall_deadline = noww + g.seconds * WALL_FACTOR
             g.fired += 1
+            hit = True
     if _guards:
         _arm()
-    raise HangDetected()
+    if hit:
+        raise HangDetected()
 
 
 class Guard:
-    """`with Guard(seconds):` -- SIGALRM after `seconds` of wall clock inside the block; guards nest (the earliest deadline is armed)"""
+    """`with Guard(seconds):` -- SIGVTALRM after `seconds` of CPU time inside the block (SIGALRM after 20 x `seconds` of wall clock);
+    guards nest (the earliest deadlines are armed)"""
 
     def __init__(self, seconds):
         self.seconds = seconds
@@ -95,9 +107,10 @@ class Guard:
         if threading.current_thread() is not threading.main_thread():
             return self
         self.on = True
-        self.deadline = time.time() + self.seconds
+        self.cpu_deadline = time.process_time() + self.seconds
+        self.wall_deadline = time.time() + self.seconds * WALL_FACTOR
         if not _guards:
-            self.old = signal.signal(signal.SIGALRM, _alarm)
+            self.old = (signal.signal(signal.SIGVTALRM, _alarm), signal.signal(signal.SIGALRM, _alarm))
         _guards.append(self)
         _arm()
         return self
@@ -110,8 +123,10 @@ class Guard:
         if _guards:
             _arm()
         else:
+            signal.setitimer(signal.ITIMER_VIRTUAL, 0)
             signal.setitimer(signal.ITIMER_REAL, 0)
-            signal.signal(signal.SIGALRM, self.old)
+            signal.signal(signal.SIGVTALRM, self.old[0])
+            signal.signal(signal.SIGALRM, self.old[1])
         return False
 
 
@@ -1119,8 +1134,9 @@ def simulate(case):
         got = {(c[1], c[2]) for c in obs["callbacks"][c0:] if c[3] == cname + "." + TB}
         obs["canary_a"] = sorted(t for t, e in got if e == "add")
         if tbrowser is not None:
-            # the handler thread runs in real time: give it up to 3 s (it needs microseconds)
-            t_end = time.time() + 3.0
+            # the handler thread runs in real time: it needs microseconds once it is scheduled; on a loaded machine that can take long,
+            # so the limit is generous (it only costs anything when the callback never comes)
+            t_end = time.time() + 30.0
             while time.time() < t_end and ("add", cname + "." + TB) not in list(tcb):
                 time.sleep(0.002)
             obs["canary_t"] = ("add", cname + "." + TB) in list(tcb)
@@ -1196,11 +1212,11 @@ def judge(obs):
     bad = []
     for e in obs["escapes"]:
         if e["exc"] == "HangDetected":
-            bad.append(("C15:hang", "datagram_received did not return within %.0f s of wall clock (item %d, %s, %d bytes): an unbounded loop" % (HANG_S, e["index"], e["kind"], e["len"])))
+            bad.append(("C15:hang", "datagram_received did not return within %.1f s of CPU time (item %d, %s, %d bytes): an unbounded loop" % (HANG_S, e["index"], e["kind"], e["len"])))
             continue
         bad.append(("C15:escape:%s" % e["exc"], "%s escaped datagram_received (item %d, %s, %d bytes)" % (e["exc"], e["index"], e["kind"], e["len"])))
     if obs.get("hang_outside_datagram") or any(e["exc"] == "HangDetected" for e in obs.get("errors", [])):
-        bad.append(("C15:hang", "a call into the library (a timer callback, a task step or the harness's own use of the encoder / decoder) did not return within the wall-clock budget"))
+        bad.append(("C15:hang", "a call into the library (a timer callback, a task step or the harness's own use of the encoder / decoder) did not return within the CPU-time budget"))
     if obs.get("hung"):
         return bad          # the canaries were not run
     for k in ("canary_p_raised", "canary_q_raised", "canary_a_raised", "canary_c_raised"):
@@ -1582,7 +1598,10 @@ def run(ctx):
     n = C.Budget(tier, 1000, 20000).n
     if ctx["widened"]:
         n *= 2
-    cap = 40.0 if tier != "thorough" else 540.0   # wall-clock guard for a loaded machine; the corpus always runs
+    # wall-clock guard for a loaded machine (the quick tier must stay within its budget); the corpus always runs.  A widened run has
+    # twice the cases AND twice the time; where the guard cuts, the number of cases actually run is recorded in the evidence
+    cap = (75.0 if tier != "thorough" else 540.0) * (2 if ctx["widened"] else 1)
+    res.dist["cases-planned"] = n
     t0 = time.time()
     res.rule = ("simulated instance (1-2 services, listener browser + handler browser, optional lookup) fed 5-60 datagrams at gaps 0 ms..11 s from "
                 "{5353, 40000, 53, 1, 65535} x {foreign, peer, own address}: C02 generators (random, wire-built, encoder-built, mutated, pointer graphs, chains), "
@@ -1598,8 +1617,10 @@ def run(ctx):
     for idx in range(n):
         if time.time() - t0 > cap:
             res.notes.append("stopped after %d of %d cases: wall-clock guard of %.0f s" % (idx, n, cap))
+            res.dist["cases-not-run-(wall-clock-guard)"] = n - idx
             break
         obs = run_case(res, gen_case(seed, idx), ctx, acc, seen)
+        res.count("cases-run")
         if obs.get("hung"):
             hung_cases += 1
             if hung_cases >= 3:
